@@ -41,6 +41,7 @@ ASSUMPTIONS = [
     "coefficient table of Niklasson et al. JCP 130, 214109 (2009) typed from recollection in vlib/ref/xlverlet.py and "
     "re-derived there from its defining properties (sum c_j = 0, vanishing odd moments up to 2K-5, c_K = (-1)^K, "
     "c_0 = -superballot(K-2)); kappa/alpha validated by monotonicity and by root-locus stability on (0, kappa_K]",
+    "the stub-driven harness propagates a zero-padded batch of two different molecules (row-wise independent D(n)); "
     "the stub replaces only Electronic_Structure.forward; one_step, _propagate_P, _do_integrator_step, initialize, run, "
     "save_checkpoint and run_from_checkpoint are the repository's code",
     "'forever' is restated as >= 4 wraps of the history buffer (b, c) and 300 wraps in closed loop (d)",
@@ -69,6 +70,14 @@ TOL_LOOP = 1e-9       #      (d) closed loop real vs R2, relative to |x0|
 LOOP_BOUND = 10.0     #      (d) closed-loop amplitude / initial amplitude (published recurrence itself peaks at 1.24)
 TOL_STAT = 1e-7       #      (b) real stationary run |P - D|
 RATIO_LO, RATIO_HI = 2.5, 6.0   # (e) per halving of dt (second order = 4)
+# (a) finite-T free-energy force.  Fermi_Q stops its chemical-potential Newton iteration at an electron-count error
+# <= 1e-9, so the returned Etot + E_entropy carries a stopping-rule error <= |eps_frontier| * 1e-9 <= 1.5e-8 eV
+# (observed: FD error growing like 1/h, a = 1.4e-8 eV, on a strongly distorted HCN).  With steps h, h/2 the Richardson
+# difference amplifies that to (4/(h/2) + 1/h) * 1.5e-8 / 3 = 1.1e-5 eV/A for h = 4e-3 A; truncation O(h^4) measured
+# <= 2e-6 at this h (2.3e-5 at h = 8e-3 on quasi-linear HCN, which is why h is not larger).  Bound = 3x the sum.
+# The entropy contribution this clause is there to see is 0.1-0.5 eV/A.
+FE_H = 4e-3
+TOL_FE = 4e-5
 
 
 def gen_cases(tier, seed):
@@ -102,6 +111,8 @@ def gen_cases(tier, seed):
         engines = ["xl"] if (tier == "quick" and k not in (4, 8)) else ["xl", "ksa"]
         if tier == "quick" and k in (4, 8):
             engines = ["ksa"]
+        if k == 6 or tier == "thorough":
+            engines = engines + ["xl_damp"]
         for eng in engines:
             cases.append({"kind": "stationary", "engine": eng, "k": k, "mol": "H2O" if tier == "quick" else
                           ["H2O", "NH3", "CH2O"][k % 3], "method": "AM1"})
@@ -120,6 +131,10 @@ def gen_cases(tier, seed):
             name = names[int(idx[i % len(names)])]
             cases.append({"kind": "consist", "mols": [name], "method": method, "geom_seed": int(g.integers(0, 2**31)),
                           "sigma": 0.06})
+    # H2 in a minimal basis: the density is fixed by symmetry, so D[P] - P is exactly 0.0 at P = converged D
+    cases.append({"kind": "consist", "mols": ["H2"], "method": "AM1", "geom_seed": 20260926, "sigma": 0.03})
+    cases.append({"kind": "stationary", "engine": "ksa", "k": 6, "mol": "H2", "method": "AM1"})
+    cases.append({"kind": "stationary", "engine": "xl", "k": 6, "mol": "H2", "method": "AM1"})
     for i in range(nb):
         method = ["AM1", "PM3", "MNDO", "PM6_SP"][i % 4]
         names = [n for n in gen.names_for(method, gen.CLOSED_NEUTRAL) if len(gen.molecule(n)[0]) <= 6]
@@ -139,6 +154,11 @@ def gen_cases(tier, seed):
     for variant in VARIANTS:
         for k in ORDERS:
             cases.append({"kind": "recur", "variant": variant, "k": k, "seq_seed": int(g.integers(0, 2**31))})
+    if tier == "thorough":  # second, redundant pass: other matrix sizes and sequences
+        for variant in VARIANTS:
+            for k in ORDERS:
+                cases.append({"kind": "recur", "variant": variant, "k": k, "seq_seed": int(g.integers(0, 2**31)),
+                              "mol": ["NH3", "CH3OH", "H2O"][(k + len(variant)) % 3]})
     # expensive first: dyn, free energy, recur by decreasing k, then the rest
     cost = {"dyn": 0, "freeenergy": 1, "recur": 2, "stationary": 3, "consist": 4}
     order = sorted(range(len(cases)), key=lambda i: (cost[cases[i]["kind"]], -cases[i].get("k", 0), i))
@@ -161,9 +181,13 @@ class _Margins:
         return r > 1.0
 
 
+NROWS = 2   # the stub-driven harness works on a zero-padded batch of two different molecules
+
+
 def _sym(g, n, scale=1.0):
-    A = g.normal(size=(n, n)) * scale
-    return 0.5 * (A + A.T)
+    """batch of NROWS random symmetric n x n matrices, shape (NROWS, n, n)"""
+    A = g.normal(size=(NROWS, n, n)) * scale
+    return 0.5 * (A + A.transpose(0, 2, 1))
 
 
 def _need(obj, names):
@@ -179,20 +203,20 @@ class _Stub:
     def __init__(self, supply):
         self.supply = supply
         self.n = 0
-        self.P = {}       # n -> P(n) as received (numpy, batch row 0)
+        self.P = {}       # n -> P(n) as received (numpy, whole batch)
         self.props = []
 
     def __call__(self, molecule, learned_parameters=None, xl_bomd_params=None, P0=None, dm_prop="SCF", **kw):
         import torch
         n = self.n
-        Pn = None if P0 is None else P0.detach().cpu().numpy()[0].copy()
+        Pn = None if P0 is None else P0.detach().cpu().numpy().copy()
         if Pn is not None:
             self.P[n] = Pn
         self.props.append(dm_prop)
         D, W = self.supply(n, Pn)
-        molecule.dm = torch.as_tensor(np.asarray(D, float)).unsqueeze(0).clone()
+        molecule.dm = torch.as_tensor(np.asarray(D, float)).clone()
         if W is not None:
-            molecule.dP2dt2 = torch.as_tensor(np.asarray(W, float)).unsqueeze(0).clone()
+            molecule.dP2dt2 = torch.as_tensor(np.asarray(W, float)).clone()
         nm = molecule.coordinates.shape[0]
         molecule.force = torch.zeros_like(molecule.coordinates.detach())
         molecule.Etot = torch.zeros(nm)
@@ -209,8 +233,10 @@ class _Harness:
 
     def __init__(self, variant, k, molname="CH2O", prefix="/tmp/c09-none/x"):
         self.variant, self.k, self.m = variant, k, k + 1
-        self.Z, self.X, _, _ = gen.molecule(molname)
-        self.nb = 4 * len(self.Z)
+        Z1, X1, _, _ = gen.molecule(molname)
+        Z2, X2, _, _ = gen.molecule("H2O" if molname != "H2O" else "HF")
+        self.S, self.C = gen.pad_batch([(Z1, X1), (Z2, np.asarray(X2) + 0.1)])
+        self.nb = 4 * len(self.S[0])
         self.prefix = prefix
         self.form = "krylov" if variant == "ksa" else "plain"
 
@@ -220,8 +246,8 @@ class _Harness:
         from seqm.Molecule import Molecule
         from seqm.seqm_functions.constants import Constants
         sett = {"method": "AM1", "scf_eps": 1e-8, "scf_converger": [1], "sp2": [False]}
-        sp = torch.as_tensor(np.asarray([self.Z]), dtype=torch.int64)
-        xyz = torch.as_tensor(np.asarray(self.X)[None, :, :], dtype=torch.float64).clone()
+        sp = torch.as_tensor(np.asarray(self.S), dtype=torch.int64)
+        xyz = torch.as_tensor(np.asarray(self.C, float), dtype=torch.float64).clone()
         mol = Molecule(Constants(), sett, xyz, sp)
         xl = {"k": self.k}
         cls = XL_BOMD
@@ -279,7 +305,7 @@ class _Harness:
             md.initialize(mol)
         if stub.n != snap["n"]:
             raise RuntimeError("initialize() of a resumed object called the electronic structure driver")
-        md._xl_ctx = {"P": torch.as_tensor(snap["P_last"]).unsqueeze(0).clone(), "Pt": snap["Pt"].clone(),
+        md._xl_ctx = {"P": torch.as_tensor(snap["P_last"]).clone(), "Pt": snap["Pt"].clone(),
                       "es_amp": None, "es_amp_t": None}
         for j in range(nsteps):
             md._do_integrator_step(abs_step + j, mol, {})
@@ -390,7 +416,7 @@ def _run_recur(case):
                           "closed_loop_steps_driven", "stub_calls")}
     R2.validate_table()
     kappa_tab, alpha_tab, c_tab = R2.TABLE[k]
-    H = _Harness(variant, k)
+    H = _Harness(variant, k, molname=case.get("mol", "CH2O"))
     # symbols this clause family depends on (refactor => inconclusive, not a guess)
     mol0, md0 = H.build()
     miss = _need(md0, ["one_step", "_propagate_P", "_do_integrator_step", "coeff", "coeff_D", "m", "esdriver",
@@ -410,7 +436,7 @@ def _run_recur(case):
             viol.append({"clause": clause, "mech": mech, "detail": detail})
 
     # ------------------------------------------------------------------ (b) fixed point, level 1
-    Dstar = _sym(g, nb) + np.eye(nb)
+    Dstar = _sym(g, nb) + np.eye(nb)[None]
     scale_b = max(1.0, float(np.abs(Dstar).max()))
     Nb = 4 * m
     for i0 in range(m):
@@ -583,15 +609,19 @@ def _run_recur(case):
         mon["stability_polynomials_checked"] += len(grid)
         if mg.upd("d_measured_root_excess", max(0.0, w - 1.0), TOL_ROOT):
             bad("stability-measured-roots", "xl-unstable-root", modulus=w, gamma=at, impulse_at=n0)
-    # closed loop: 3000 steps, element-wise response factors covering the grid (CH2O: 16x16 -> 136 free elements)
+    # closed loop: 3000 steps, element-wise response factors covering the grid (2 rows x 16x16 -> 272 free elements)
     iu = np.triu_indices(nb)
-    nfree = len(iu[0])
+    nfree = NROWS * len(iu[0])
     gvals = np.array([grid[int(round(i * (len(grid) - 1) / max(1, nfree - 1)))] for i in range(nfree)])
     extra = [1e-3, 1e-4, 1.0, 0.5]
     gvals[:len(extra)] = extra
-    G = np.zeros((nb, nb))
-    G[iu] = g.permutation(gvals)
-    G = G + G.T - np.diag(np.diag(G))
+    gvals = g.permutation(gvals)
+    G = np.zeros((NROWS, nb, nb))
+    for b in range(NROWS):
+        Gb = np.zeros((nb, nb))
+        Gb[iu] = gvals[b * len(iu[0]):(b + 1) * len(iu[0])]
+        G[b] = Gb + Gb.T - np.diag(np.diag(Gb))
+    gammas_driven = len(set(np.round(gvals, 12).tolist()))
     Pstar = _sym(g, nb)
     x0 = _sym(g, nb)
     x0 = np.sign(x0) * (0.5 + np.abs(x0))          # every element has an initial amplitude >= 0.5
@@ -637,7 +667,8 @@ def _run_recur(case):
            "kappa_eff_over_table": kappa_eff / kappa_tab, "live_coeff_D": live_D,
            "live_max_root_modulus_minus_1": worst - 1.0,
            "closed_loop_max_amplitude_ratio": float(ratio.max()),
-           "closed_loop_late_over_early": float((late / early).max()),
+           "closed_loop_late_over_early": float((late / early).max()), "closed_loop_distinct_gammas": gammas_driven,
+           "batch_rows": NROWS, "matrix_size": nb,
            "measured_coefficients_phase1": [eff_by_phase[1][0]] + eff_by_phase[1][1][:m],
            "published_coefficients": [kappa_eff] + pub, "worst": dict(mg.m)}
     nontrivial = mon["recurrence_steps_compared"] >= 4 * m and mon["fixedpoint_steps_checked"] >= 4 * m
@@ -719,10 +750,16 @@ def _run_consist(case):
         if mg.upd("a_D_of_P_minus_P", d, TOL_DP):
             fails.append(("D(P)-P", d))
         dW = None
+        resid_DP = d
         if label != "plain":
-            dW = float(np.abs(run.npy(mol.dP2dt2)).max())
-            if mg.upd("a_krylov_update_at_fixed_point", dW, 1e-6):
-                fails.append(("dP2dt2", dW))
+            Wk = run.npy(mol.dP2dt2)
+            if not np.all(np.isfinite(Wk)):
+                dW = float("nan")
+                fails.append(("krylov-update-not-finite", float(np.isnan(Wk).sum())))
+            else:
+                dW = float(np.abs(Wk).max())
+                if mg.upd("a_krylov_update_at_fixed_point", dW, 1e-6):
+                    fails.append(("dP2dt2", dW))
         obs["variants"][label] = {"dE": float(np.abs(np.asarray(out["Etot"]) - np.asarray(ref["Etot"])).max()),
                                   "dF": float(np.abs(Fx - Fs)[real].max()), "dP2dt2": dW}
         for what, val in fails:
@@ -730,10 +767,14 @@ def _run_consist(case):
                 mech = "xl-energy-differs-from-scf-at-converged-density"
             elif what.startswith("force"):
                 mech = "xl-force-differs-from-scf-at-converged-density"
+            elif what == "krylov-update-not-finite":
+                # deterministic classifier: the residual handed to the Krylov normalisation was exactly zero
+                mech = "ksa-zero-residual-nan" if resid_DP == 0.0 else "ksa-update-not-finite"
             else:
                 mech = "xl-density-not-stationary-at-converged-density"
             viol.append({"clause": "consistency-" + what, "mech": mech,
-                         "detail": {"variant": label, "value": val, "method": method, "mols": case["mols"],
+                         "detail": {"variant": label, "value": val, "max|D(P)-P|": resid_DP, "method": method,
+                                    "mols": case["mols"],
                                     "species": np.asarray(S).tolist(), "coords": np.asarray(C).tolist()}})
     del torch
     return {"nontrivial": mon["consistency_calls_compared"] > 0, "violations": viol, "margins": mg.m, "monitors": mon,
@@ -785,7 +826,7 @@ def _run_freeenergy(case):
         d = g.normal(size=X.shape)
         d /= np.linalg.norm(d)
         D, DE, ok = {}, {}, True
-        for h in (2e-3, 1e-3):
+        for h in (FE_H, FE_H / 2):
             vals = []
             for sgn in (+1, -1):
                 m2, _, r2 = solve(X + sgn * h * d, P)
@@ -800,11 +841,11 @@ def _run_freeenergy(case):
             DE[h] = (vals[0][1] - vals[1][1]) / (2 * h)
         if not ok:
             continue
-        dOm = (4 * D[1e-3] - D[2e-3]) / 3.0
-        dE = (4 * DE[1e-3] - DE[2e-3]) / 3.0
+        dOm = (4 * D[FE_H / 2] - D[FE_H]) / 3.0
+        dE = (4 * DE[FE_H / 2] - DE[FE_H]) / 3.0
         Fd = float((F * d).sum())
         ndone += 1
-        tol = 5e-6 + 1e-6 * abs(Fd)
+        tol = TOL_FE + 1e-6 * abs(Fd)
         obs["directions"].append({"F.d": Fd, "-dOmega/ds": -dOm, "-dEtot/ds": -dE, "entropy_share": dE - dOm})
         if mg.upd("a_free_energy_force", abs(Fd + dOm), tol):
             viol.append({"clause": "consistency-free-energy-force", "mech": "xl-force-not-gradient-of-free-energy",
@@ -823,7 +864,7 @@ def _run_freeenergy(case):
 _MASS = {1: 1.008, 6: 12.011, 7: 14.007, 8: 15.999, 9: 18.998}
 
 
-def _make_md(engine, k, sett, dt, prefix, rank=None, T_el=1500.0, h5=True, Temp=0.0):
+def _make_md(engine, k, sett, dt, prefix, rank=None, T_el=1500.0, h5=True, Temp=0.0, damp=None):
     from seqm.MolecularDynamics import KSA_XL_BOMD, XL_BOMD, Molecular_Dynamics_Basic
     out = {"molid": [0], "prefix": prefix, "print every": 0, "checkpoint every": 0, "xyz": 0,
            "h5": {"data": 1, "coordinates": 1} if h5 else {}}
@@ -832,7 +873,7 @@ def _make_md(engine, k, sett, dt, prefix, rank=None, T_el=1500.0, h5=True, Temp=
     if engine == "ksa":
         xl = {"k": k, "max_rank": int(rank or 3), "err_threshold": 0.0, "T_el": float(T_el)}
         return KSA_XL_BOMD(xl_bomd_params=xl, damp=None, seqm_parameters=sett, timestep=dt, Temp=Temp, output=out)
-    return XL_BOMD(xl_bomd_params={"k": k}, damp=None, seqm_parameters=sett, timestep=dt, Temp=Temp, output=out)
+    return XL_BOMD(xl_bomd_params={"k": k}, damp=damp, seqm_parameters=sett, timestep=dt, Temp=Temp, output=out)
 
 
 def _molecule(Z, X, sett):
@@ -867,7 +908,9 @@ def _run_stationary(case):
         return {"ineligible": "relaxation stopped at |F|max = %.2e" % fmax}
     sett2 = run.settings(method, eps=1e-11, converger=(2,))
     mol = _molecule(Z, Xr, sett2)
-    md = _make_md(engine, k, sett2, 0.4, "/tmp/c09-none/s", rank=3, h5=False)
+    # "xl_damp": Langevin thermostat code active (two calls per step) at Temp = 0, i.e. friction without noise
+    md = _make_md("xl" if engine == "xl_damp" else engine, k, sett2, 0.4, "/tmp/c09-none/s", rank=3, h5=False,
+                  damp=20.0 if engine == "xl_damp" else None)
     rec = []
     orig = md.esdriver.forward
 
@@ -875,20 +918,44 @@ def _run_stationary(case):
         P0 = kw.get("P0")
         P0 = None if P0 is None else P0.detach().clone()
         res = orig(molecule, *a, **kw)
-        rec.append((kw.get("dm_prop", "SCF"), P0, molecule.dm.detach().clone()))
+        W = getattr(molecule, "dP2dt2", None)
+        rec.append((kw.get("dm_prop", "SCF"), P0, molecule.dm.detach().clone(),
+                    W.detach().clone() if torch.is_tensor(W) else None))
         return res
 
     md.esdriver.forward = watch
     nsteps = 3 * m
-    with run.quiet():
-        md.run(mol, nsteps, reuse_P=True, remove_com=None, seed=1)
+    raised = None
+    try:
+        with run.quiet():
+            md.run(mol, nsteps, reuse_P=True, remove_com=None, seed=1)
+    except Exception as exc:  # an exception in a valid run at rest is itself the observation (judged below)
+        raised = "%s: %s" % (type(exc).__name__, str(exc)[:200])
     xl_calls = [t for t in rec if t[0] == "XL-BOMD"]
     mg, viol = _Margins(), []
+    # first non-finite quantity returned by the electronic-structure call, and the residual it was computed from
+    for idx, (_, P0, Dn, W) in enumerate(xl_calls):
+        bad_W = W is not None and not bool(torch.isfinite(W).all())
+        bad_D = not bool(torch.isfinite(Dn).all())
+        if bad_W or bad_D:
+            resid = float((Dn - P0).abs().max()) if not bad_D else float("nan")
+            mech = "ksa-zero-residual-nan" if (bad_W and resid == 0.0) else "xl-real-run-not-finite"
+            return {"nontrivial": True, "margins": {},
+                    "monitors": {"stationary_real_steps": len(xl_calls), "stationary_relax_evals": int(r.nfev)},
+                    "cells": ["b/real/%s/k%d" % (engine, k)],
+                    "violations": [{"clause": "stationary-real-run-not-finite", "mech": mech,
+                                    "detail": {"engine": engine, "k": k, "mol": case["mol"], "first_bad_call": idx + 1,
+                                               "max|D(P)-P|_at_that_call": resid, "what": "dP2dt2" if bad_W else "dm",
+                                               "run_raised": raised, "coords": Xr.tolist()}}],
+                    "obs": {"engine": engine, "k": k, "fmax": fmax, "first_non_finite_call": idx + 1,
+                            "residual_there": resid, "run_raised": raised}}
+    if raised is not None:
+        return {"inconclusive": "stationary run raised without a non-finite value being observed first: " + raised}
     if len(xl_calls) != nsteps:
         return {"inconclusive": "expected %d XL-BOMD calls, watched %d" % (nsteps, len(xl_calls))}
     D0 = rec[0][2]
-    w1 = max(float((P - D).abs().max()) for _, P, D in xl_calls)
-    w2 = max(float((P - D0).abs().max()) for _, P, D in xl_calls)
+    w1 = max(float((P - D).abs().max()) for _, P, D, _ in xl_calls)
+    w2 = max(float((P - D0).abs().max()) for _, P, D, _ in xl_calls)
     dx = float((mol.coordinates.detach() - torch.as_tensor(Xr)[None]).abs().max())
     if mg.upd("b_real_stationary_P_minus_D", w1, TOL_STAT):
         viol.append({"clause": "stationary-real-run", "mech": "xl-fixed-point-drift",
